@@ -26,7 +26,8 @@ class OpaqueDT:
     """result of a C-level datetime construction from a symbolic float: the float is kept for inspection"""
 
     def __init__(self, unix_seconds, route):
-        self.unix_seconds = unix_seconds
+        self.unix_seconds = unix_seconds      # the float handed to C (or None when built from integers, see total_us)
+        self.total_us = None
         self.route = route
         self.tzinfo = _dt.timezone.utc
 
@@ -37,15 +38,30 @@ class OpaqueDT:
 class SymTimedelta:
     """normalised timedelta with symbolic components, or an un-normalised one built from float seconds"""
 
-    def __init__(self, days=0, seconds=0, microseconds=0, float_seconds=None):
+    def __init__(self, days=0, seconds=0, microseconds=0, float_seconds=None, total_us=None):
         self.days, self.seconds, self.microseconds = days, seconds, microseconds
         self.float_seconds = float_seconds
+        self.total_us = total_us      # un-normalised integer form (built from symbolic integer keyword arguments)
 
     def __radd__(self, other):
         if _real_isinstance(other, _dt.datetime) and self.float_seconds is not None:
             if other != EPOCH:
                 raise EngineLimit("datetime + symbolic timedelta with a base other than 1970-01-01Z")
             return OpaqueDT(self.float_seconds, "epoch+timedelta(seconds=f)")
+        if _real_isinstance(other, _dt.datetime) and (self.total_us is not None or self.float_seconds is None):
+            if other.tzinfo is None:
+                raise EngineLimit("naive datetime + symbolic timedelta")
+            d = other - EPOCH
+            base = (d.days * 86400 + d.seconds) * 10 ** 6 + d.microseconds
+            us = self.total_us if self.total_us is not None else (self.days * US_PER_DAY + self.seconds * 10 ** 6 + self.microseconds)
+            o = OpaqueDT(None, "datetime+timedelta(integers)")
+            o.total_us = base + us
+            return o
+        if _real_isinstance(other, OpaqueDT) and getattr(other, "total_us", None) is not None:
+            us = self.total_us if self.total_us is not None else (self.days * US_PER_DAY + self.seconds * 10 ** 6 + self.microseconds)
+            o = OpaqueDT(None, "opaque+timedelta(integers)")
+            o.total_us = other.total_us + us
+            return o
         return NotImplemented
 
     def total_seconds(self):
@@ -101,7 +117,14 @@ class _TimedeltaMeta(type):
         if any(_sym(x) for x in a) or any(_sym(x) for x in k.values()):
             if not a and set(k) == {"seconds"} and _real_isinstance(k["seconds"], (SymFloat, SymInt)):
                 return SymTimedelta(float_seconds=SymFloat.from_any(k["seconds"]))
-            raise EngineLimit("timedelta construction from symbolic components")
+            names = ("days", "seconds", "microseconds", "milliseconds", "minutes", "hours", "weeks")
+            vals = dict(zip(names, a))
+            vals.update(k)
+            if all(not _real_isinstance(v, (SymFloat, float)) for v in vals.values()) and set(vals) <= set(names):
+                scale = dict(days=US_PER_DAY, seconds=10 ** 6, microseconds=1, milliseconds=1000, minutes=60 * 10 ** 6,
+                             hours=3600 * 10 ** 6, weeks=7 * US_PER_DAY)
+                return SymTimedelta(total_us=sum(v * scale[n] for n, v in vals.items()))
+            raise EngineLimit("timedelta construction from symbolic float components")
         return _dt.timedelta(*a, **k)
 
 
